@@ -80,7 +80,9 @@ theorem gstep_gi {c : Conn} {G : GMap} (hr : RInv c) (h : GI c G) (op : Op) (hwf
   · exact h.sameSend (rxMaxData_sameSend c _)
   · exact rxMaxStreamData_gi hr h _ _
   · exact h.sameSend (rxMaxStreams_sameSend c _ _)
-  · exact h.sameSend (SameSend.of_streams rfl rfl)
+  · rcases rxTransportParams_cases c _ with he | he <;> rw [he]
+    · exact h
+    · exact h.sameSend (SameSend.of_streams rfl rfl)
   · exact h.sameSend (unblockStreams_sameSend c _)
   · exact rxStopSending_gi hr h _
   · exact rxStreamDataBlocked_gi hr h _
